@@ -11,6 +11,7 @@ the same cells in opposite order, with the finer of the two meshes.
 -/
 import Dassh.Gen.C09
 import Dassh.Lemmas.TableSound
+import Mathlib.Tactic.Ring
 
 namespace Dassh.Props.C09
 open Dassh.Gen.C09
@@ -18,5 +19,13 @@ open Dassh.Gen.C09
 /-- every dumped layout passes the certificate (each chunk is evaluated by the kernel
 in its own generated module, `Dassh.Gen.C09_<k>.certs_ok`) -/
 theorem c09_all_layouts : allCerts.all (· = true) = true := all_ok
+
+/-- Consequence used by C02 (core energy balance): for EVERY dumped layout the generated module contains the instance
+`exch_<layout>` of `Dassh.Exchange.gap_exchange_zero` - conduction between adjacent gap cells, or any other antisymmetric pair
+exchange, sums to zero over the gap mesh the running code built.  Written out here for the full 7-assembly core. -/
+theorem c09_full_core_gap_exchange_cancels {K : Type} [Field K] [LinearOrder K] [IsStrictOrderedRing K]
+    (R : Nat → Nat → K) (hR : ∀ i j, R j i = R i j) (kc : K) (T : Nat → K) :
+    ∑ c ∈ Finset.range fullNsc, ((Dassh.Table.row fullAdj 12 3 c).map fun j => kc * R c j * (T j - T c)).sum = 0 :=
+  full_exch (fun c j => kc * R c j * (T j - T c)) (fun i j => by rw [hR j i]; ring)
 
 end Dassh.Props.C09
